@@ -7,6 +7,10 @@ ids = [json.loads(l)["id"] for l in open(os.path.join(HERE, "properties.jsonl"))
 TECH = "bounded model checking of the real code: Kani 0.68 -> CBMC 6.11 (cadical SAT); symbolic inputs, concrete sizes, unwinding assertions on; counterexamples replayed natively"
 
 CLAIMED = {
+ "C06": dict(
+   text="For 8 override configurations (real #[entry_points] expansion) CBMC decides, for EVERY entry point the configuration must emit (29 in total: instantiate/execute/query/sudo minus the overridden kinds, plus migrate/reply when such a handler exists and is not overridden), over all message arguments, env, info, storage tags and handler outcomes, that it builds the contract with new(), dispatches with the given deps/env/info (reply: dispatch_reply with gas and payload) and returns the dispatch outcome with the contract's error type. That the expected entry points EXIST is decided by the compile gate (the crate names them) -- this is how the wrong `query` override mapping was found (fixed).",
+   note="absence of overridden / handler-less entry points is a token-level fact outside the claim; 8 of the 2^6 x 2 x 2 configurations are sampled; generic #[entry_points(generics<..>)] and the legacy reply entry point are outside; stubs: Backtrace::capture, fmt::format",
+   ref="§3 C06"),
  "C04": dict(
    text="CBMC decides, for the real #[entry_points] expansion of corpus `basic` (19 handlers in 5 kinds, wire name `tick{n}` present as exec, query AND sudo, instantiate and migrate sharing their argument names): every well-formed message of kind K1 (symbolic choice and argument values), decoded by the real contract-level message of kind K2 != K1 and, when accepted, pushed through entry_points::<K2> with echo handlers, never runs a handler annotated with another kind; it is rejected unless K2 itself has a message of that name/shape, in which case K2's OWN handler runs. One harness per ordered pair of kinds.",
    note="facade container model (validated by a native pre-flight against the real container); the cw_multi_test::Contract byte path and the reply kind are outside; error text stubbed; program dimension sampled by one contract + 2 interfaces",
